@@ -33,7 +33,8 @@ ASSUMPTIONS = [
     "generator enforces cond(A^T S^-1 A) <= 1e8 and cond(V) <= 1e8 (measured on the reference; others discarded and counted)",
     "tolerances (statement: 'to within the minimizer's tolerance'; iminuit EDM goal 2e-5 <=> 4.5e-3 sigma): |p - p^| <= 1e-2 sigma (iminuit) / 5e-2 sigma (scipy BFGS with numerical gradient terminates on precision loss), "
     "|C - C^|_ij <= tol * sqrt(C^_ii C^_jj) with tol = 2e-3 (scipy) / max(5e-3, 2e-7 * cond) (iminuit HESSE, numerical second derivatives at strategy 1; observed 2.8e-3 at cond 1.5e4, 1.7e-2 at 1.2e5, 2.4e-2 at 6e6), |chi2 - chi2^| <= 1e-3, asymmetric errors within 1e-2 sigma of +-sigma",
-    "scipy asymmetric errors (generic profile root finding, ~2 s) are sampled at 10 % in the quick tier",
+    "scipy asymmetric errors (generic profile root finding with one numerical Hessian per profile point: ~2 s at 2-3 free parameters, 45 s at 6) are sampled at 10 % of the cases with <= 4 free parameters in the quick tier (thorough tier: always)",
+    "shared sources of a multi-fit are absolute, data-referenced, on the y axis, for members of equal size (relative / x sources, refusals and disabling are C11's workload); joint covariance cond <= 1e8",
 ]
 ANCHORS = [
     ("kafe2.core.fitters.nexus_fitter", "NexusFitter._fcn_wrapper"),
@@ -54,7 +55,7 @@ ANCHORS = [
 def floors(tier):
     return {
         "comparisons": {"parameter_values": 60, "parameter_cov_mat": 60, "parameter_errors": 60, "parameter_cor_mat": 40, "goodness_of_fit": 60, "cost_function_value": 60, "asymmetric_parameter_errors": 25, "fixed_untouched": 15,
-                        "parameter_values(multi-fit with shared source)": 8, "parameter_values(multi-fit with shared source and member constraint)": 5, "parameter_values(multi-fit with member constraint)": 5},
+                        "parameter_values(multi-fit with shared source)": 5, "parameter_values(multi-fit with shared source and member constraint)": 3, "parameter_values(multi-fit with member constraint)": 3},
         "ops": ["do_fit", "multi.add_error.shared", "multi.add_matrix_error.shared", "member.add_parameter_constraint", "member.add_matrix_parameter_constraint"],
         "reach": ["%s:%s" % a for a in ANCHORS],
         "strata": ["xy", "indexed", "multi", "iminuit", "scipy", "fixed", "constraint-simple", "constraint-matrix", "correlated-V", "far-start", "other-unit",
@@ -172,6 +173,8 @@ def gen_case(rng, tier, idx, shard, nshards):
             j = int(S[int(rng.integers(0, len(S) - 1))]) if (shared and t == 0) else int(rng.integers(0, len(members)))
             m = Model.from_spec(members[j]["spec"]["model"])
             when = str(rng.choice(["before-multi", "before-shared", "after-shared"]))
+            if stratified and shared:
+                when = ["before-multi", "before-shared", "after-shared"][(gi // 3 + t) % 3]  # multi-fits 1, 5, 6, 9: every position at least once
             member_constraints.append([j, when, gen.gen_constraint(rng, list(m.pnames), [defaults[names.index(q)] for q in m.pnames])])
     constraint_when = [str(rng.choice(["before-shared", "after-shared"])) for _ in constraints]
     fixed = {}
@@ -195,7 +198,7 @@ def gen_case(rng, tier, idx, shard, nshards):
     far = bool(rng.random() < 0.3)
     start = {n: float(np.round(d * (rng.uniform(-30, 30) if far else rng.uniform(0.5, 1.5)) + rng.uniform(-0.5, 0.5) * unit, 4 if unit == 1.0 else 12)) for n, d in zip(names, defaults) if n not in fixed}
     return {"property": "C05", "unit": unit, "kind": kind, "minimizer": minimizer, "members": members, "shared": shared, "constraints": constraints, "constraint_when": constraint_when, "member_constraints": member_constraints,
-            "fixed": fixed, "start": start, "far_start": far, "asym": bool(minimizer == "iminuit" or rng.random() < (0.1 if tier == "quick" else 1.0))}
+            "fixed": fixed, "start": start, "far_start": far, "asym": bool(minimizer == "iminuit" or rng.random() < ((0.1 if len(start) <= 4 else 0.0) if tier == "quick" else 1.0))}
 
 
 # ------------------------------------------------------------------ closed form
